@@ -7,6 +7,7 @@ package c03
 import (
 	"encoding/json"
 	"fmt"
+	"reflect"
 	"strings"
 
 	"panmc/internal/core"
@@ -19,8 +20,9 @@ func init() {
 		ID:    "C03",
 		Level: "model_checking",
 		Rule: "G1 capture/shadowing: all combinations of {assignment before definition, between definition and call, after the first call} x 12 body shapes (read, :=, +=, derived local, inner closure created before a local reassignment, inner assignment, closure returned and called later, sibling closures sharing a frame, two-variable shadowing, closure over a parameter, nested definition scopes) x wrapper nesting 0..2; " +
-			"G2 binding: parameter lists {0..3 positional} x {0..2 keyword} x every argument list of length <=5 (thorough 6) over {positionals, k:, j:, unknown z:, *[0..2 elements], **{k}, **{j,k}} respecting the grammar, probing parameters and \\ \\N \\0 \\name \\_; " +
+			"G2 binding: parameter lists {0..3 positional} x {0..2 keyword} x every argument list of length <=5 (thorough 6) over {positionals, k:, j:, unknown z:, *[0..2 elements], **{k}, **{j,k}, **{w,b}; up to two ** with disjoint names} respecting the grammar, probing parameters and \\ \\N \\0 \\name \\_; " +
 			"G3 receiver passing: function vs method properties x call forms (o.p(x), o['p](o,x), extracted) x anonymous chains in functions, methods and nested literal calls; G4 recursion depth 0..4 with per-frame locals and escaping closures; " +
+			"G5 every sequence of <=2 (thorough 3) calls over 10 argument lists that unpack the same objects/arrays held in variables (**opts, **opts **extra, *xs *xs, k: with **, method call last), printing what each call received and the unpacked objects afterwards; " +
 			"oracle = independent reference evaluator; non-trivial = program with a closure call after a reassignment, an arity/keyword mismatch or a receiver; distinct = distinct source",
 		Assumptions: []string{
 			"don't-care: with fewer arguments than parameters \\N/\\0 show the nil padding: arg variables are compared only for positions actually received and \\0 only without padding",
@@ -168,7 +170,17 @@ func genG2(maxArgs int, emit func(tcase)) {
 	var rec func(cur []argItem)
 	rec = func(cur []argItem) {
 		argLists = append(argLists, append([]argItem{}, cur...))
-		if len(cur) == maxArgs || (len(cur) > 0 && cur[len(cur)-1].last) {
+		if len(cur) == maxArgs {
+			return
+		}
+		afterDstar := len(cur) > 0 && cur[len(cur)-1].last
+		ndstar := 0
+		for _, c := range cur {
+			if c.last {
+				ndstar++
+			}
+		}
+		if ndstar == 2 {
 			return
 		}
 		used := map[string]bool{}
@@ -183,6 +195,12 @@ func genG2(maxArgs int, emit func(tcase)) {
 		}
 	next:
 		for _, it := range items {
+			if afterDstar && !it.last {
+				continue // the grammar only lets another ** follow a **
+			}
+			if afterDstar && reflect.DeepEqual(it.a, cur[len(cur)-1].a) {
+				continue
+			}
 			for _, k := range it.kws {
 				if used[k] {
 					continue next
@@ -342,6 +360,52 @@ func genG4(emit func(tcase)) {
 	}
 }
 
+// ---------------------------------------------------------------- G5
+
+// genG5: sequences of calls whose argument lists unpack the SAME objects/arrays (held in variables):
+// each call receives exactly its own arguments whatever the earlier calls unpacked, and the unpacked
+// objects are unchanged afterwards.
+func genG5(depth int, emit func(tcase)) {
+	ds := func(n string) arg { return arg{kind: "dstar", e: v(n)} }
+	st := func(n string) arg { return arg{kind: "star", e: v(n)} }
+	lists := [][]arg{
+		{ds("opts")},
+		{ds("opts"), ds("extra")},
+		{ds("extra"), ds("opts")},
+		{ds("opts"), ds("both")},
+		{st("xs")},
+		{st("xs"), ds("opts")},
+		{{kind: "pos", e: i(1)}, ds("extra")},
+		{st("xs"), st("xs")},
+		{{kind: "kw", name: "j", e: i(9)}, ds("opts")},
+		{{kind: "kw", name: "q", e: i(9)}, ds("both"), ds("extra")},
+	}
+	f := funcLit{params: []string{"a"}, kw: []kwparam{{"k", i(10)}}, body: []node{arr(v("a"), v("k"), argVar{"0"}, argVar{"_"})}}
+	m := funcLit{params: []string{"a"}, kw: []kwparam{{"k", i(10)}}, method: true, body: []node{arr(v("a"), v("k"), argVar{"_"})}}
+	defs := []node{
+		set("f", f), set("o", objLit{[]pair{{"m", m}}}),
+		set("opts", objLit{[]pair{{"k", i(70)}}}), set("extra", objLit{[]pair{{"j", i(80)}}}),
+		set("both", objLit{[]pair{{"y", i(81)}, {"z", i(71)}}}), set("xs", arr(i(5), i(6))),
+	}
+	var rec func(seq []node, n int)
+	rec = func(seq []node, n int) {
+		if n > 0 {
+			prog := append(append([]node{}, defs...), arr(append(append([]node{}, seq...), v("opts"), v("extra"), v("both"), v("xs"))...))
+			emit(mk("G5/shared-argument-objects", n > 1, prog))
+		}
+		if n == depth {
+			return
+		}
+		for _, al := range lists {
+			rec(append(append([]node{}, seq...), call{callee: v("f"), args: al}), n+1)
+			if n+1 == depth { // the method form only as the last call
+				rec(append(append([]node{}, seq...), propCall{recv: v("o"), name: "m", args: al}), n+1)
+			}
+		}
+	}
+	rec(nil, 0)
+}
+
 // ---------------------------------------------------------------- judging
 
 func judge(c *core.Ctx, t tcase, o panrun.Obs) {
@@ -386,6 +450,11 @@ func gen(thorough bool, emit func(tcase)) {
 	}
 	genG3(emit)
 	genG4(emit)
+	if thorough {
+		genG5(3, emit)
+	} else {
+		genG5(2, emit)
+	}
 }
 
 func run(c *core.Ctx) {
